@@ -9,11 +9,11 @@ package main
 // compared with a table frozen from the format specification.
 
 import (
-	"hash/crc32"
 	"fmt"
 	"go/constant"
 	"go/token"
 	"go/types"
+	"hash/crc32"
 	"sort"
 
 	"golang.org/x/tools/go/ssa"
